@@ -21,6 +21,11 @@ def sh(cmd, timeout=None, cwd=None, env=None, mem_gb=None):
             resource.setrlimit(resource.RLIMIT_AS, (b, b))
         os.setsid()
     t0 = time.time()
+    if env is None and os.environ.get('YK_SCRATCH'):
+        # temporary files of the tools (CBMC's CNF for the external solver: hundreds of MB, left behind when a query is killed on
+        # time-out) go into the run's scratch directory, which is removed at the end of the check
+        env = dict(os.environ)
+        env['TMPDIR'] = os.environ['YK_SCRATCH']
     try:
         p = subprocess.Popen(cmd, stdout=subprocess.PIPE, stderr=subprocess.PIPE, cwd=cwd, env=env, preexec_fn=lim, text=True)
         try:
